@@ -328,6 +328,15 @@ class MultiVector:
         if not isinstance(indices, tuple):
             indices = (indices,)
 
+        shape = self.shape[1:]
+        if shape and isinstance(self._values, (tuple, list)):
+            import numpy as np
+            if any(np.shape(value) != shape for value in self._values):
+                # Coefficients of lower rank (down to plain numbers) are shared between the elements, see
+                # `__getitem__`: give every element its own entry before writing to some of them.
+                self._values = [value if np.shape(value) == shape else np.array(np.broadcast_to(value, shape))
+                                for value in self._values]
+
         if isinstance(values, MultiVector):
             if self.keys() != values.keys():
                 raise ValueError('setitem with a multivector is only possible for equivalent MVs.')
